@@ -51,6 +51,26 @@ pub fn check_fill(c: &FillCase) -> CheckResult {
         // ... and the same source moved to T^-1 . S for the draw under the identity
         b.fill(&moved, &moved_source(&own, &ti), &dopts);
     });
+    // the same source drawn through mask(): the mask's position and bytes are in device space, the source it lets
+    // through is still fixed in user space, so mask() under T equals mask() under the identity of the moved source
+    {
+        let (mw, mh) = ((c.w - 1).max(1), (c.h - 1).max(1));
+        let mask = Mask { width: mw, height: mh, data: (0..mw * mh).map(|i| if i % 5 == 0 { (c.init[i as usize % c.init.len()] >> 8) as u8 } else { 255 }).collect() };
+        let mut a2 = new_target(c.w, c.h, &c.init);
+        a2.set_transform(&t);
+        let mut b2 = new_target(c.w, c.h, &c.init);
+        c.src.with(|s| {
+            let own = match &c.own {
+                Some(e) => moved_source(s, &to_transform(e)),
+                None => s.clone(),
+            };
+            a2.mask(&own, 1, 0, &mask);
+            b2.mask(&moved_source(&own, &ti), 1, 0, &mask);
+        });
+        if let Some(m) = diff(a2.get_data(), b2.get_data(), c.w) {
+            return Err(format!("mask() of a source under transform {:?} differs from mask() of the source moved to T^-1 . S under the identity: {} [{}]", c.xf, m, c.src.kind()));
+        }
+    }
     if let Some(m) = diff(a.get_data(), b.get_data(), c.w) {
         return Err(format!(
             "fill under transform {:?} differs from filling Path::transform of the path under the identity (source moved to T^-1 . S): {} [{}]",
@@ -486,7 +506,7 @@ pub fn property(ctx: &Ctx) -> Property {
     let drift_open = ctx.excluded(super::c12::DRIFT_KEY);
     Property {
         id: "C11",
-        rule: "part fill: random polygon/curve paths, every source kind, 28 modes, all invertible transform classes: fill under T must equal, bit for bit, filling Path::transform(T) of the path under the identity with the source's transform preceded by T^-1 (sources live in user space); in half of the cases the source also carries an extra transform of its own, set directly in the public Source variant, so that every source kind (two-circle included) composes a non-trivial own transform with the CTM. part stroke: polylines stroked (all caps/joins/dashes) under a similarity must match stroking the transformed polyline with width, dashes and offset scaled (line width scales with T) up to one quarter-sample flip per edge. part image-under-near-identity-ctm: C13's images on 600..2048 px long surfaces under a current transform within 1e-3 of the identity (zoom 1.0004, half a milliradian of rotation, a slight shear), judged by C13's f64 oracle (a transform treated as 'close enough to a translation' drifts by whole texels there). part singular: every drawing call except mask/clear under non-invertible T changes nothing. part device: push_clip_rect (probed by an identity-transform fill), mask geometry with solid sources, copy_surface, blend_surface, blend_surface_with_alpha give identical pixels under any T. part restore: get_transform() is bit-equal after clear() and pop_layer (with/without clip; in half of the layer cases the transform is changed while the layer is open, and pop_layer must leave that one) and a following draw equals the draw with T re-set. part rect: fill_rect (integer and fractional rectangles) and draw_image_at under any T, half of them translations with each axis zero / whole / fractional on its own, must equal, bit for bit, filling PathBuilder::rect of the same rectangle (with the translated image source) under the same T. parts gradient-under-ctm / image-under-ctm: C12's gradient cases and C13's image cases with a non-identity current transform (incl. mirrored, sheared and zoomed user spaces), colour judged absolutely at T^-1 of the pixel centre by those properties' oracles. Non-trivial: T not identity/integer translation (fill), scale away from 1 (stroke), non-identity T (device/restore); distinct by hash of the case.",
+        rule: "part fill: random polygon/curve paths, every source kind, 28 modes, all invertible transform classes: fill under T must equal, bit for bit, filling Path::transform(T) of the path under the identity with the source's transform preceded by T^-1 (sources live in user space), and the same for the source drawn through mask() at a fixed device position; in half of the cases the source also carries an extra transform of its own, set directly in the public Source variant, so that every source kind (two-circle included) composes a non-trivial own transform with the CTM. part stroke: polylines stroked (all caps/joins/dashes) under a similarity must match stroking the transformed polyline with width, dashes and offset scaled (line width scales with T) up to one quarter-sample flip per edge. part image-under-near-identity-ctm: C13's images on 600..2048 px long surfaces under a current transform within 1e-3 of the identity (zoom 1.0004, half a milliradian of rotation, a slight shear), judged by C13's f64 oracle (a transform treated as 'close enough to a translation' drifts by whole texels there). part singular: every drawing call except mask/clear under non-invertible T changes nothing. part device: push_clip_rect (probed by an identity-transform fill), mask geometry with solid sources, copy_surface, blend_surface, blend_surface_with_alpha give identical pixels under any T. part restore: get_transform() is bit-equal after clear() and pop_layer (with/without clip; in half of the layer cases the transform is changed while the layer is open, and pop_layer must leave that one) and a following draw equals the draw with T re-set. part rect: fill_rect (integer and fractional rectangles) and draw_image_at under any T, half of them translations with each axis zero / whole / fractional on its own, must equal, bit for bit, filling PathBuilder::rect of the same rectangle (with the translated image source) under the same T. parts gradient-under-ctm / image-under-ctm: C12's gradient cases and C13's image cases with a non-identity current transform (incl. mirrored, sheared and zoomed user spaces), colour judged absolutely at T^-1 of the pixel centre by those properties' oracles. Non-trivial: T not identity/integer translation (fill), scale away from 1 (stroke), non-identity T (device/restore); distinct by hash of the case.",
         assumptions: vec![
             "mask() under a singular transform is not judged (the statement allows both readings)",
             "stroke part: the two sides differ by f32 rounding of positions, which the quarter-pixel vertex truncation can amplify to 1/4 px: alpha differences up to 80/255 (polylines) resp. 140/255 (curves, 0.2 px flattening difference) per pixel are accepted; a width that does not scale differs by 255 on whole bands",
